@@ -63,3 +63,189 @@ def valid_temperature(reporting, n_total: Int, n_valid: Int, n_meter: Int, n_tem
     check("C10.valid_temperature", iff(got == ["eemeter.sufficiency_criteria.too_many_days_with_missing_temperature_data"],
                                        Or(n_total <= 0, n_temp * 10 < n_total * 9)))
     check("C10.valid_temperature.only", And(len(got) <= 1, Not(mutated(c.warnings))))
+
+
+# ----------------------------------------------------------------------------------------------------------------------------------
+# day counting and the data-dependent checks on the row-wise model (one arbitrary row of an arbitrary sufficiency frame)
+
+NUM = 0
+NAN = 1
+DATA_COLS = ["observed", "temperature", "temperature_not_null", "temperature_null"]
+OPAQUE_CLASS_MODULES = []
+
+
+def criteria_on(data, reporting, electric=True):
+    return new_object(SC, is_reporting_data=reporting, is_electricity_data=electric, n_days_total=fresh_int("n_total"), n_valid_days=None,
+                      n_valid_meter_value_days=None, n_valid_temperature_days=None, min_fraction_daily_coverage=0.9,
+                      min_fraction_hourly_temperature_coverage_per_period=0.9, num_days=365,
+                      disqualification=fresh_seq("disqualification"), warnings=fresh_seq("warnings"), data=data)
+
+
+@harness("C10.day_counts", prop="C10", cases=CASES, permissive=True)
+def day_counts(reporting):
+    """_compute_valid_meter_temperature_days: every timestamp counts for the period up to the next timestamp (in days of elapsed time), the last
+    one for nothing; a row counts as valid usage when its reading is present, as valid temperature when more than 90 % of its temperature readings
+    are present, as valid when both (reporting: temperature only); each total is rounded to the nearest integer."""
+    data = row_frame(DATA_COLS, label="sufficiency")
+    ko = cell_kind(data, "observed")
+    knn = cell_kind(data, "temperature_not_null")
+    kn = cell_kind(data, "temperature_null")
+    nn = cell_val(data, "temperature_not_null")
+    nu = cell_val(data, "temperature_null")
+    assume(And(knn == NUM, kn == NUM, nn >= 0, nu >= 0))
+    secs = next_seconds(data)
+    last = is_last_row(data)
+    c = criteria_on(data, reporting)
+    c._compute_valid_meter_temperature_days()
+    sums = sum_log()
+    rounds = round_log()
+    period_days = secs / 86400
+    temp_ok = And(nn + nu > 0, nn * 10 > (nn + nu) * 9)          # not_null / (not_null + null) > 0.9
+    meter_ok = ko != NAN
+    valid = temp_ok if reporting else And(meter_ok, temp_ok)
+    # order of the three totals in the real function: meter (baseline only), temperature, both
+    i_t = 0 if reporting else 1
+    i_v = 1 if reporting else 2
+    check("C10.day_counts.n_sums", len(sums) == (2 if reporting else 3))
+    if len(sums) == (2 if reporting else 3):
+        if not reporting:
+            m = sums[0]
+            check("C10.day_counts.meter_row", implies(Not(last), And(m[1] == NUM, m[2] == ite(meter_ok, period_days, 0))))
+        t = sums[i_t]
+        v = sums[i_v]
+        check("C10.day_counts.temperature_row", implies(Not(last), And(t[1] == NUM, t[2] == ite(temp_ok, period_days, 0))))
+        check("C10.day_counts.valid_row", implies(Not(last), And(v[1] == NUM, v[2] == ite(valid, period_days, 0))))
+        check("C10.day_counts.last_row_counts_nothing", implies(last, And(t[1] == NAN, v[1] == NAN)))
+        # the stored counts are the rounded totals
+        check("C10.day_counts.rounded", len(rounds) == len(sums))
+        if len(rounds) == len(sums):
+            check("C10.day_counts.stored", And(c.n_valid_temperature_days == rounds[i_t][0], rounds[i_t][1] == t[0],
+                                               c.n_valid_days == rounds[i_v][0], rounds[i_v][1] == v[0]))
+            if not reporting:
+                check("C10.day_counts.stored_meter", And(c.n_valid_meter_value_days == rounds[0][0], rounds[0][1] == sums[0][0]))
+    cover("C10.cover.day_counts.partial_temperature", And(Not(last), nn > 0, nu > 0, Not(temp_ok)))
+
+
+@harness("C10.no_data", prop="C10", cases=CASES, permissive=True)
+def no_data(reporting):
+    data = row_frame(DATA_COLS, label="sufficiency")
+    complete = And(cell_kind(data, "observed") != NAN, cell_kind(data, "temperature") != NAN, cell_kind(data, "temperature_not_null") != NAN,
+                   cell_kind(data, "temperature_null") != NAN)
+    c = criteria_on(data, reporting)
+    r = c._check_no_data()
+    got = names(c.disqualification)
+    # a complete row anywhere rules the verdict out; the verdict and the returned flag agree
+    check("C10.no_data.sound", implies(complete, got == []))
+    check("C10.no_data.flag", iff(r, got == []))
+    check("C10.no_data.name", Or(got == [], got == ["eemeter.sufficiency_criteria.no_data"]))
+    check("C10.no_data.only", Not(mutated(c.warnings)))
+
+
+NEG_CASES = [{"reporting": r, "electric": e} for r in [False, True] for e in [False, True]]
+
+
+@harness("C10.negative", prop="C10", cases=NEG_CASES, permissive=True)
+def negative(reporting, electric):
+    data = row_frame(DATA_COLS, label="sufficiency")
+    ko = cell_kind(data, "observed")
+    vo = cell_val(data, "observed")
+    c = criteria_on(data, reporting, electric)
+    c._check_negative_meter_values()
+    got = names(c.disqualification)
+    if reporting or electric:
+        check("C10.negative.not_applicable", got == [])
+    else:
+        check("C10.negative.sound", implies(And(ko == NUM, vo < 0), got == ["eemeter.sufficiency_criteria.negative_meter_values"]))
+        check("C10.negative.name", Or(got == [], got == ["eemeter.sufficiency_criteria.negative_meter_values"]))
+    check("C10.negative.only", Not(mutated(c.warnings)))
+
+
+@harness("C10.monthly", prop="C10", cases=CASES, permissive=True)
+def monthly(reporting):
+    """monthly temperature coverage: share of present readings per calendar month of the index, disqualified when any month is under 90 %"""
+    data = row_frame(DATA_COLS, label="sufficiency")
+    c = criteria_on(data, reporting)
+    c._check_monthly_temperature_values_percentage()
+    got = names(c.disqualification)
+    log = agg_bool_log()
+    # the share of present readings per calendar month, in one of its spellings; another spelling is undecided, not wrong
+    recognise(len(log) == 1 and log[0][3] in ["apply:x.notna().mean()", "apply:x.notnull().mean()"] and log[0][2] == "any"
+              and log[0][7] == "groupby(index.month)", "monthly share of present temperature readings")
+    check("C10.monthly.column", log[0][6] == "temperature")
+    check("C10.monthly.threshold", log[0][4] == "Lt" and log[0][5] == 0.9)
+    check("C10.monthly.verdict", iff(log[0][0], got == ["eemeter.sufficiency_criteria.missing_monthly_temperature_data"]))
+    check("C10.monthly.name", Or(got == [], got == ["eemeter.sufficiency_criteria.missing_monthly_temperature_data"]))
+
+
+HOURLY_SUFF = repo("opendsm/eemeter/models/hourly/data.py::_create_sufficiency_df")
+SUFF_CASES = [{"ghi": False}, {"ghi": True}]
+
+
+@harness("C10.hourly_frame", prop="C10", cases=SUFF_CASES, permissive=True)
+def hourly_sufficiency_frame(ghi):
+    """the frame the hourly criteria are evaluated on: every value that was filled by interpolation is blanked again -- each column by ITS OWN
+    flag -- and the temperature counts are 1/0 (present) and 0/1 (absent) per hour"""
+    cols = ["observed", "temperature", "interpolated_observed", "interpolated_temperature"]
+    if ghi:
+        cols = cols + ["ghi", "interpolated_ghi"]
+    df = row_frame(cols, label="hourly")
+    names_ = ["observed", "temperature"] + (["ghi"] if ghi else [])
+    k0 = []
+    v0 = []
+    f0 = []
+    for c in names_:
+        k0.append(cell_kind(df, c))
+        v0.append(cell_val(df, c))
+        f0.append(And(cell_kind(df, "interpolated_" + c) == NUM, cell_val(df, "interpolated_" + c) == 1))
+    out = HOURLY_SUFF(df)
+    i = 0
+    for c in names_:
+        k1 = cell_kind(out, c)
+        check("C10.hourly_frame.blank." + c, implies(f0[i], k1 == NAN))
+        check("C10.hourly_frame.keep." + c, implies(Not(f0[i]), And(k1 == k0[i], implies(k0[i] == NUM, cell_val(out, c) == v0[i]))))
+        i = i + 1
+    kt = cell_kind(out, "temperature")
+    check("C10.hourly_frame.counts", And(cell_kind(out, "temperature_not_null") == NUM, cell_kind(out, "temperature_null") == NUM,
+                                         cell_val(out, "temperature_not_null") == ite(kt != NAN, 1, 0),
+                                         cell_val(out, "temperature_null") == ite(kt != NAN, 0, 1)))
+    check("C10.hourly_frame.rows", out.mult == df.mult)
+
+
+HSC = repo("opendsm/eemeter/common/sufficiency_criteria.py::HourlySufficiencyCriteria")
+HM_CASES = [{"reporting": r, "ghi": g} for r in [False, True] for g in [False, True]]
+
+
+@harness("C10.monthly_hourly", prop="C10", cases=HM_CASES, permissive=True)
+def monthly_hourly(reporting, ghi):
+    """hourly criteria: usage (baseline only) and irradiance (when supplied) must each be present for 90 % of every calendar month"""
+    cols = list(DATA_COLS)
+    if ghi:
+        cols = cols + ["ghi"]
+    data = row_frame(cols, label="sufficiency")
+    c = new_object(HSC, is_reporting_data=reporting, is_electricity_data=True, min_fraction_daily_coverage=0.9, disqualification=fresh_seq("disqualification"),
+                   warnings=fresh_seq("warnings"), data=data)
+    c._check_monthly_meter_readings_percentage()
+    got_m = names(c.disqualification)
+    log = agg_bool_log()
+    if reporting:
+        check("C10.monthly_hourly.meter.not_for_reporting", And(got_m == [], len(log) == 0))
+    else:
+        recognise(len(log) == 1 and log[0][3] in ["apply:x.notna().mean()", "apply:x.notnull().mean()"] and log[0][2] == "any"
+                  and log[0][7] == "groupby(index.month)", "monthly share of present usage readings")
+        check("C10.monthly_hourly.meter.column", log[0][6] == "observed")
+        check("C10.monthly_hourly.meter.threshold", log[0][4] == "Lt" and log[0][5] == 0.9)
+        check("C10.monthly_hourly.meter.verdict", iff(log[0][0], got_m == ["eemeter.sufficiency_criteria.missing_monthly_meter_data"]))
+    n0 = len(log)
+    c2 = new_object(HSC, is_reporting_data=reporting, is_electricity_data=True, min_fraction_daily_coverage=0.9, disqualification=fresh_seq("disqualification2"),
+                    warnings=fresh_seq("warnings2"), data=data)
+    c2._check_monthly_ghi_percentage()
+    got_g = names(c2.disqualification)
+    log2 = agg_bool_log()
+    if not ghi:
+        check("C10.monthly_hourly.ghi.absent", And(got_g == [], len(log2) == n0))
+    else:
+        recognise(len(log2) == n0 + 1 and log2[n0][3] in ["apply:x.notna().mean()", "apply:x.notnull().mean()"] and log2[n0][2] == "any"
+                  and log2[n0][7] == "groupby(index.month)", "monthly share of present irradiance readings")
+        check("C10.monthly_hourly.ghi.column", log2[n0][6] == "ghi")
+        check("C10.monthly_hourly.ghi.threshold", log2[n0][4] == "Lt" and log2[n0][5] == 0.9)
+        check("C10.monthly_hourly.ghi.verdict", iff(log2[n0][0], got_g == ["eemeter.sufficiency_criteria.missing_monthly_ghi_data"]))
